@@ -154,13 +154,8 @@ def canon_name(A, n):
     return n if n in A["regs"] else None
 
 
-def ref_mock(f):
-    """expected answer of an A case"""
-    w, lookup, initaddr, initsize = int(f[1]), int(f[2]), int(f[3]), int(f[4])
-    callee = parse_regs(f[5])
-    mem = mem_reader(w, int(f[6]), bytes.fromhex(f[7]) if f[7] != "-" else b"")
-    deltas = [(int(f[i]), f[i + 1]) for i in range(9, len(f) - 1, 2)]
-    rules = ref_rules(initaddr, initsize, f[8], deltas, lookup)
+def ref_mock_core(w, lookup, callee, mem, initaddr, initsize, init, deltas):
+    rules = ref_rules(initaddr, initsize, init, deltas, lookup)
     if rules is None or ".cfa" not in rules or ".ra" not in rules:
         return "N"
     fits = (lambda v: True) if w == 8 else (lambda v: v < (1 << 32))
@@ -181,6 +176,37 @@ def ref_mock(f):
             regs[name] = v
     return "S|cfa=%d|ra=%d|regs=%s|cleared=%s" % (
         cfa, ra, ",".join("%s=%d" % kv for kv in sorted(regs.items())), ",".join(sorted(cleared)))
+
+
+def ref_mock(f):
+    """expected answer of an A case"""
+    w, lookup, initaddr, initsize = int(f[1]), int(f[2]), int(f[3]), int(f[4])
+    callee = parse_regs(f[5])
+    mem = mem_reader(w, int(f[6]), bytes.fromhex(f[7]) if f[7] != "-" else b"")
+    deltas = [(int(f[i]), f[i + 1]) for i in range(9, len(f) - 1, 2)]
+    return ref_mock_core(w, lookup, callee, mem, initaddr, initsize, f[8], deltas)
+
+
+def parse_recs(f):
+    recs = []
+    for r in f[6:]:
+        g = r.split(";")
+        recs.append((int(g[0]), int(g[1]), g[2], [(int(g[i]), g[i + 1]) for i in range(3, len(g) - 1, 2)]))
+    return recs
+
+
+def ref_multi(f):
+    """expected answer of an M case: the INIT record whose (non-empty, in-range) interval covers the lookup address,
+    with ITS delta records (the generator keeps the intervals disjoint, so there is at most one)"""
+    w, lookup = int(f[1]), int(f[2])
+    callee = parse_regs(f[3])
+    mem = mem_reader(w, int(f[4]), bytes.fromhex(f[5]) if f[5] != "-" else b"")
+    hits = [r for r in parse_recs(f) if r[1] != 0 and r[0] + r[1] <= U64 and r[0] <= lookup <= r[0] + r[1] - 1]
+    if not hits:
+        return "N"
+    assert len(hits) == 1, "generator produced overlapping INIT records"
+    ia, isz, init, deltas = hits[0]
+    return ref_mock_core(w, lookup, callee, mem, ia, isz, init, deltas)
 
 
 def ref_real(f):
@@ -251,7 +277,7 @@ class C06(PropBase):
     translators = ["c06_cfi_ops.py", "unwind_consts.py"]
     bins = ["c06"]
     rule = ("case = one STACK CFI INIT record + delta records, a lookup address, callee registers and a memory image, walked "
-            "(A) by SymbolFile::walk_frame with a mock FrameWalker or (B) by one walk_stack step through the real "
+            "(A) by SymbolFile::walk_frame with a mock FrameWalker (M: several INIT records with disjoint ranges in one file) or (B) by one walk_stack step through the real "
             "CfiStackWalker (x86/amd64/arm64). Exhaustive: every expression of length <= L over the 17-token alphabet "
             "in each of the three rule positions (.cfa, .ra, a general register) x 6 environments (L=3 quick, 4 thorough on a "
             "sub-grid); random programs to length 24; random delta-record sets around the lookup address incl. duplicate "
@@ -426,6 +452,41 @@ class C06(PropBase):
             (w, regs, mb, mh) = rng.choice(self.ENVS[:2] + self.ENVS[3:4])
             addA(w, lookup, ia, isz, regs, mb, mh, init, deltas)
             dist["delta_sets"] += 1
+        # several INIT records in one file, each with its own delta records: disjoint ranges (adjacent ones included),
+        # any file order, size-0 records in between; the lookup address walks over the boundaries
+        nm = 1500 if tier == "quick" else 12000
+        inits = [".cfa: 16 .ra: 8", ".cfa: 24 .ra: 5 $r3: 1", ".cfa: $r0 .ra: .cfa ^ r4: 2", ".cfa: 32 .ra: 9 $r3: .undef r5: r1",
+                 ".cfa: 16", ".ra: 8 .cfa: 40"]
+        dpool = [".cfa: 48", ".ra: 6", "$r3: 7", "r3: .undef", "r4: r1 $r0 +", "$r5: 5 .ra: 3", "r6: .cfa 8 - ^", "$r3: r1", ".cfa: $r0 8 +"]
+        for _ in range(nm):
+            nrec = rng.range(2, 4)
+            start = rng.choice([0, 16, 100, 18446744073709551000])
+            recs, pos, bounds = [], start, []
+            for _k in range(nrec):
+                gap = rng.choice([0, 0, 1, 7])
+                size = rng.choice([1, 2, 8, 16, 32])
+                ia = pos + gap
+                deltas = []
+                for _d in range(rng.range(0, 3)):
+                    # delta addresses inside the record, at its edges, or (deliberately) inside a NEIGHBOUR's range
+                    da = ia + rng.choice([0, 1, size - 1, size, size + 1, -1 if ia > 0 else 0])
+                    deltas.append((da, rng.choice(dpool)))
+                recs.append((ia, size, rng.choice(inits), deltas))
+                bounds += [ia - 1 if ia > 0 else 0, ia, ia + size - 1, ia + size]
+                pos = ia + size
+                if rng.chance(1, 5):
+                    recs.append((pos, 0, rng.choice(inits), [(pos, rng.choice(dpool))]))
+            lookup = rng.choice(bounds + [start + rng.below(pos - start + 2)])
+            for i in range(len(recs) - 1, 0, -1):      # file order: any
+                j = rng.below(i + 1)
+                recs[i], recs[j] = recs[j], recs[i]
+            (w, regs, mb, mh) = rng.choice(self.ENVS[:2])
+            f = ["M", str(w), str(lookup), regs, str(mb), mh]
+            for (ia, size, init, deltas) in recs:
+                f.append(";".join([str(ia), str(size), init] + [x for (a, t) in deltas for x in (str(a), t)]))
+            cases.append("|".join(f))
+            dist["by_kind"]["M"] = dist["by_kind"].get("M", 0) + 1
+            dist["multi_record"] = dist.get("multi_record", 0) + 1
         # front-end (b): the real CfiStackWalker
         SP = 0x80000000
         stack = bytes(range(1, 65)).hex()
@@ -500,8 +561,16 @@ class C06(PropBase):
         f = case.split("|")
         if ans == "E":
             return "the generated symbol file was rejected by the parser"
-        texts = [f[8]] + [f[i + 1] for i in range(9, len(f) - 1, 2)]
+        if f[0] == "M":
+            texts = [t for r in parse_recs(f) for t in [r[2]] + [d[1] for d in r[3]]]
+        else:
+            texts = [f[8]] + [f[i + 1] for i in range(9, len(f) - 1, 2)]
         if any(undocumented(t) for t in texts):
+            return None
+        if f[0] == "M":
+            want = ref_multi(f)
+            if ans != want:
+                return "walk_frame result (several INIT records) differs from the documented semantics: got %s, documented %s" % (ans[:300], want[:300])
             return None
         if f[0] == "A":
             want = ref_mock(f)
